@@ -44,6 +44,8 @@ SPEC = {
         "RuntimeError *after* dt/duration was stored (modelled as such: error branch with that side effect); "
         "`size_formula_inv` is stated for setters that return without error",
         "owner module alive (ShapedTensor.valid's weakref test is not modelled)",
+        "uninitialised *parameters* (nn.UninitializedParameter) are not generated: assigning `.data` to one does not "
+        "materialise it, so a tensor assigned through ShapedTensor.value is silently lost (torch behaviour, outside C13)",
     ],
 }
 DRIVER = "drivers/C13.lean"
